@@ -24,6 +24,8 @@ impl std::convert::From<FmtError> for SerError {
 }
 /// the decimal text `Display` writes for an integer (std; uninterpreted)
 pub uninterp spec fn decimal_text(v: int) -> Seq<char>;
+/// `n` spaces
+pub open spec fn spaces(n: int) -> Seq<char> { Seq::new(n as nat, |i: int| ' ') }
 /// the word written for None / unit
 pub open spec fn null_word() -> Seq<char> { "null"@ }
 impl Sink {
@@ -54,3 +56,14 @@ fn seq_open<'a, 'b>(ser: &'a mut YamlSerializer<'b>, len: Option<usize>) -> (r: 
 #[verifier::external_body]
 fn seq_element<'a, 'b>(seq: &mut SeqSer<'a, 'b>, value: SerVal) -> (r: Result<(), SerError>)
 { unimplemented!() }
+/// `value.serialize(&mut *ser)` for a `T: Serialize` (generic; may do anything to the serializer)
+#[verifier::external_body]
+fn ser_value<'b>(value: &SerVal, ser: &mut YamlSerializer<'b>) -> (r: Result<(), SerError>)
+{ unimplemented!() }
+/// `ser.with_in_flow(|s| value.serialize(s))`
+#[verifier::external_body]
+fn ser_value_in_flow<'b>(value: &SerVal, ser: &mut YamlSerializer<'b>) -> (r: Result<(), SerError>)
+{ unimplemented!() }
+/// std: `Option::replace` (not specified by the installed vstd; assumed as documented)
+pub assume_specification<T>[ Option::<T>::replace ](opt: &mut Option<T>, value: T) -> (r: Option<T>)
+    ensures r == *old(opt), *final(opt) == Some(value);
